@@ -161,6 +161,11 @@ fn main() {
             cases.push(run(&rt, &handler, &store, "ping", cmd(&[b"PING", p.as_bytes()]), &mut commands_for_live));
             cases.push(run(&rt, &handler, &store, "graph-delete", cmd(&[b"GRAPH.DELETE", p.as_bytes()]), &mut commands_for_live));
         }
+        // null values: `RETURN null` is the RESP3 null `_`, a null *property* is rendered as the bulk
+        // string "Null" (value fidelity is C23's subject); either way it must be one frame
+        for q in ["RETURN null", "CREATE (n:NullP {k: 1}) RETURN n.missing", "MATCH (n:NullP) RETURN n.missing, n.k, null"] {
+            cases.push(run(&rt, &handler, &store, "null-value", cmd(&[b"GRAPH.QUERY", b"default", q.as_bytes()]), &mut commands_for_live));
+        }
         for c in [cmd(&[b"PING"]), cmd(&[b"INFO"]), cmd(&[b"GRAPH.LIST"]), cmd(&[b"ECHO"]), cmd(&[b"GRAPH.QUERY"]), cmd(&[b"GRAPH.QUERY", b"default"])] {
             cases.push(run(&rt, &handler, &store, "other", c, &mut commands_for_live));
         }
@@ -255,12 +260,129 @@ fn main() {
         }
     }
 
+    // 5. malformed wire input on a live connection: the `-ERR <protocol error>` reply of
+    //    handle_connection's error arm must be exactly one (error) frame
+    if args.replay.is_none() {
+        if let Some(live) = Live::start() {
+            let garbage: Vec<&[u8]> = vec![b":abc\r\n", b"$abc\r\n", b"*1\r\n$-5\r\n", b"\"unclosed\r\n", b"\xff\xfe\r\n", b"\r\n", b"*x\r\n", b"$3\r\nabcde\r\n", b"_x\r\n", b"+\xff\r\n", b"*1\r\n:\r\n+OK\r\n"];
+            for g in garbage {
+                let (got, raw) = live.exchange(&[g.to_vec()], 1, 3000);
+                rep.case(&format!("live-garbage {}", hexd(g)), false);
+                rep.count("live_malformed_input");
+                // (what follows the first error reply depends on read timing; only the first reply is judged)
+                let ok = matches!(got.first(), Some(RespValue::Error(m)) if m.starts_with("ERR "));
+                if !ok {
+                    let body = format!("# live connection, wire input {}\n# replies {:?}\n# raw {}", hexd(g), got.iter().map(vtext).collect::<Vec<_>>(), hexd(&raw));
+                    rep.count("spec_violation:live-protocol-error-reply");
+                    rep.spec_violation(&known, "live-protocol-error-reply", "malformed input was not answered with one error frame", &body);
+                }
+            }
+        }
+    }
+
+    // 6. the forwarding branch (sharding): the only reply bytes not produced by RespValue::encode on
+    //    this node.  A scripted owning node writes its reply in given segments; the client sends
+    //    GRAPH.QUERY remote … followed by PING and must read exactly [that reply, +PONG].
+    {
+        let mut scripted: Vec<Vec<Vec<u8>>> = vec![];
+        for (k, rest) in corpus_lines(&args.corpus.join("C22"), &args.replay) {
+            if k == "forward" { if let Some(c) = parse_chunks(rest.split_whitespace().next().unwrap_or("-")) { scripted.push(c.into_iter().filter(|x| !x.is_empty()).collect()); } }
+        }
+        if args.replay.is_none() || !scripted.is_empty() {
+            forward_part(&args, &mut rep, &known, &exe, &mut rng, &mut first_break, &mut mismatches, scripted);
+        }
+    }
+
     if let Some((name, body)) = first_break {
         if rep.spec_violations.is_empty() {
             rep.correspondence_break(&name, &format!("model and implementation disagree on {} cases while the specification holds on all explored cases", mismatches), &body);
         }
     }
     rep.write(&args.out);
+}
+
+fn forward_part(args: &Args, rep: &mut Report, known: &Known, exe: &std::path::Path, rng: &mut Rng,
+                first_break: &mut Option<(String, String)>, mismatches: &mut u64, scripted: Vec<Vec<Vec<u8>>>) {
+    let Some(remote) = FakeRemote::start() else { rep.notes.push("fake remote did not start; forwarding part skipped".into()); return; };
+    let Some(live) = Live::start_with(Some(remote.port)) else { rep.notes.push("sharded live server did not come up; forwarding part skipped".into()); return; };
+    let enc = |v: &RespValue| { let mut b = Vec::new(); v.encode(&mut b).unwrap(); b };
+    let big: Vec<u8> = (0..6000).map(|i| b'a' + (i % 26) as u8).collect();
+    // (kind, reads the proxy gets from the owning node)
+    let classify = |cs: &Vec<Vec<u8>>| -> &'static str {
+        let all: Vec<u8> = cs.concat();
+        let mut b = bytes::BytesMut::from(&all[..]);
+        match RespValue::decode(&mut b) {
+            Ok(Some(_)) if !b.is_empty() => "extra",
+            Ok(Some(_)) => if cs.len() > 1 { "torn" } else if all.len() > 4096 { "long" } else { "whole" },
+            _ => "closed",
+        }
+    };
+    let mut scripts: Vec<(&'static str, Vec<Vec<u8>>)> = scripted.into_iter().map(|c| (classify(&c), c)).collect();
+    rep.count_n("corpus_forward_scripts", scripts.len() as u64);
+    if args.replay.is_none() { scripts.extend(vec![
+        ("whole", vec![b"+OK\r\n".to_vec()]),
+        ("torn", vec![b"$5\r\nhel".to_vec(), b"lo\r\n".to_vec()]),
+        ("torn", vec![b":4".to_vec(), b"2".to_vec(), b"\r".to_vec(), b"\n".to_vec()]),
+        ("torn", vec![b"*2\r\n*1\r\n$1\r\nc\r\n".to_vec(), b"*1\r\n:7\r\n".to_vec()]),
+        ("long", vec![enc(&RespValue::BulkString(Some(big.clone())))]),
+        ("whole", vec![b"-ERR no such graph\r\n".to_vec()]),
+        ("extra", vec![b"+OK\r\n+EXTRA\r\n".to_vec()]),
+        ("closed", vec![b"$5\r\nhel".to_vec()]),
+        ("closed", vec![]),
+    ]); }
+    if args.thorough() && args.replay.is_none() {
+        for _ in 0..60 {
+            let d = rng.usize(3);
+            let v = gen_reply(rng, d);
+            let b = enc(&v);
+            let mut cuts: Vec<usize> = (0..rng.usize(3)).map(|_| 1 + rng.usize(b.len().max(2) - 1)).collect();
+            cuts.sort(); cuts.dedup();
+            let mut chunks = vec![]; let mut prev = 0;
+            for c in cuts { if c > prev && c < b.len() { chunks.push(b[prev..c].to_vec()); prev = c; } }
+            chunks.push(b[prev..].to_vec());
+            scripts.push((if chunks.len() > 1 { "torn" } else { "whole" }, chunks));
+        }
+    }
+    let cmd_bytes = {
+        let mut b = enc(&cmd(&[b"GRAPH.QUERY", b"remote", b"RETURN 1"]));
+        b.extend_from_slice(&enc(&cmd(&[b"PING"])));
+        b
+    };
+    let lines: Vec<String> = scripts.iter().map(|(_, cs)| format!("relay {}", chunks_text(cs))).collect();
+    let model = driver::batch(exe, &lines);
+    for (k, (kind, chunks)) in scripts.iter().enumerate() {
+        remote.push(chunks.clone());
+        let (got, raw) = live.exchange(&[cmd_bytes.clone()], 2, 1500);
+        rep.case(&format!("forward {} {}", kind, chunks_text(chunks)), *kind != "whole");
+        rep.count(&format!("forwarded:{}", kind));
+        let m = &model[k];
+        let pong = RespValue::SimpleString("PONG".into());
+        // S on R: two commands, two frames, the second is +PONG; the first is the owning node's
+        // reply, or an error when that node never completed one
+        let first_ok = match (m.as_str(), got.first()) {
+            ("ok none", Some(RespValue::Error(e))) => e.starts_with("ERR routing failed"),
+            ("ok none", _) => false,
+            (_, Some(_)) => true,
+            _ => false,
+        };
+        let body = format!("forward {}\n# forwarding branch: owning node wrote {} then closed; client sent GRAPH.QUERY remote \"RETURN 1\" + PING\n# client read {} frame(s) {:?}\n# raw {}\n# model {}",
+            chunks_text(chunks), chunks_text(chunks), got.len(), got.iter().map(vtext).collect::<Vec<_>>(), if raw.len() > 300 { format!("{}..({} bytes)", hex0(&raw[..100]), raw.len()) } else { hexd(&raw) }, if m.len() > 200 { &m[..200] } else { m });
+        if got.len() != 2 || got[1] != pong || !first_ok {
+            let sig = format!("forward-{}", match *kind { "torn" | "long" => "torn-reply", "extra" => "extra-bytes", "closed" => "remote-closed", _ => "whole-reply" });
+            rep.count(&format!("spec_violation:{}", sig));
+            rep.spec_violation(known, &sig, &format!("forwarded command + PING answered with {} frame(s)", got.len()), &body);
+            continue;
+        }
+        if m != "ok none" {
+            let mut want = unhex(m.trim_start_matches("ok ")).unwrap_or_default();
+            want.extend_from_slice(b"+PONG\r\n");
+            if raw != want {
+                rep.count("model_mismatch");
+                *mismatches += 1;
+                if first_break.is_none() { *first_break = Some(("SgModel.Resp.relay = sharding::Proxy::forward relayed by handle_connection".into(), body)); }
+            }
+        }
+    }
 }
 
 fn run(rt: &tokio::runtime::Runtime, handler: &CommandHandler, store: &Arc<RwLock<GraphStore>>, origin: &str, c: RespValue, live: &mut Vec<RespValue>) -> Case {
